@@ -49,4 +49,6 @@ size_t par_image(Cipher c, const ParObj *o, uint8_t *buf, size_t cap);
 int blk_crypt(Cipher c, const uint8_t *key, unsigned klen, unsigned rounds, int dir,
               const uint8_t *in, uint8_t *out);
 
+extern int g_obj_keep_prior;   /* 1: the init wrappers leave the handle's prior content alone */
+
 #endif
